@@ -20,6 +20,7 @@ import (
 	"os"
 	"path/filepath"
 	"runtime"
+	"runtime/debug"
 	"sort"
 	"strings"
 	"sync"
@@ -42,6 +43,7 @@ const (
 	c05MaxRd    = 2         // readers a sequence may hold open
 	c05Horizon  = 40 // poll periods (ticks) a reader gets to deliver bytes that are present
 	c05Settle   = 3  // poll periods after every event
+	c05Sweeps   = 6  // rounds of "every parked poller polls once" an operation gets before it counts as dead-locked
 )
 
 type c05Cfg struct {
@@ -143,6 +145,9 @@ type c05Env struct {
 	allRd    []*c05Reader
 
 	wedged    func(mc.Result) // reports a wedged execution and never returns
+	graced    bool
+	wakeDesc  bool            // during the current operation poll timers fire in reverse park order
+	snapStalled bool          // memory snapshot writer is waiting for space with all bytes handed over
 	lastOp    string          // last structural op (signature context)
 	events    int
 	delivered int
@@ -186,12 +191,21 @@ func (e *c05Env) logf(format string, a ...interface{}) {
 	e.trace = append(e.trace, fmt.Sprintf(format, a...))
 }
 
+// tickSeq lets one poll period elapse for every parked poller, one poller at a time in
+// park order (so that the park order - and with it every later wake order - stays a
+// deterministic function of the operation sequence).
+func (e *c05Env) tickSeq() {
+	for _, t := range vpoll.Tickets() {
+		vpoll.Wake(t)
+		synctest.Wait()
+	}
+}
+
 func (e *c05Env) settle() {
 	synctest.Wait()
 	if e.disk() {
 		for i := 0; i < c05Settle; i++ {
-			vpoll.Tick()
-			synctest.Wait()
+			e.tickSeq()
 		}
 	}
 }
@@ -206,8 +220,7 @@ func (e *c05Env) waitUntil(cond func() bool) bool {
 		return false
 	}
 	for i := 0; i < c05Horizon; i++ {
-		vpoll.Tick()
-		synctest.Wait()
+		e.tickSeq()
 		if cond() {
 			return true
 		}
@@ -238,17 +251,22 @@ func (r *c05Reader) closedByImpl() bool {
 
 // call runs one cache operation that may close started disk readers synchronously.
 // Such a Close blocks on the mutex a parked poller holds, so the operation runs in a
-// helper goroutine while this goroutine lets poll periods elapse. For operations that
-// hold the store's data-set lock while closing (resetLike) a poll period may only
-// elapse once every started reader has been marked closed - an earlier poll would call
-// back into the data set and dead-lock against the operation (see the report).
+// helper goroutine while this goroutine lets poll periods elapse (see spinUntil for
+// when).
 func (e *c05Env) call(resetLike bool, f func()) {
+	if !e.disk() {
+		f()
+		return
+	}
 	done := make(chan struct{})
+	started := make(chan struct{})
 	go func() {
 		defer close(done)
+		close(started)
 		f()
 	}()
-	e.spinUntil(resetLike, func() bool {
+	<-started // the helper is running before its state is sampled
+	e.spinUntil(func() bool {
 		select {
 		case <-done:
 			return true
@@ -263,76 +281,114 @@ func (e *c05Env) awaitExit(r *c05Reader) {
 	if !r.started {
 		return
 	}
-	e.spinUntil(false, func() bool {
+	if !e.disk() {
+		synctest.Wait()
+	}
+	e.spinUntil(func() bool {
 		r.mu.Lock()
 		defer r.mu.Unlock()
 		return r.exited
 	})
 }
 
-// spinUntil yields until cond holds, letting poll periods elapse when that is safe.
-// If instead every other goroutine of the bubble is blocked (at least one of them on a
-// mutex, which nothing in the closed system can release any more) for several
-// consecutive observations, the execution is wedged: that is reported as a violation
-// and this goroutine parks for ever (the bubble is abandoned).
-func (e *c05Env) spinUntil(resetLike bool, cond func() bool) {
-	blockedRounds := 0
-	var lastSample int64
+// spinUntil waits until cond holds while a cache operation (or a Close) runs on another
+// goroutine. synctest.Wait cannot be used here: the operation may be blocked on the
+// mutex of a parked poller, which is not "durably blocked". Quiescence is therefore
+// observed through the goroutine states of the bubble (all others blocked). At every
+// quiescent point where cond does not hold yet, ONE parked poller's period elapses, in
+// park order (or reverse park order when e.wakeDesc is set: the order in which the
+// timers of concurrently polling readers fire is the environment's choice). If all
+// parked pollers have had their turn c05Sweeps times and cond still does not hold while
+// some goroutine sits on a lock, nothing in the closed system can make progress any
+// more: dead-lock. That is reported as a violation and this goroutine parks for ever
+// (the bubble is abandoned).
+func (e *c05Env) spinUntil(cond func() bool) {
+	var queue []uint64
+	sweeps := 0
 	for round := 1; ; round++ {
 		if cond() {
 			return
 		}
-		if round < 3000 {
+		if round%64 != 0 {
 			runtime.Gosched()
 			continue
 		}
-		<-c05Pulse // real-time pause (channel fed from outside the bubble), pacing only
+		if round > 64*40 {
+			<-c05Pulse // real-time pause (channel fed from outside the bubble), pacing only
+		}
+		all, mtx := bubbleBlocked()
+		if !all {
+			continue
+		}
 		if cond() {
 			return
 		}
-		safe := true
-		if resetLike {
-			for _, r := range e.allRd {
-				if r.started && r.aof && !r.closedByImpl() {
-					safe = false
+		// quiescent, cond false: let the next poller's period elapse
+		if len(queue) == 0 {
+			if sweeps >= c05Sweeps {
+				if len(mtx) == 0 && !e.graced {
+					// diagnostic grace: does cond become true by itself a little later?
+					e.graced = true
+					t0 := wallNow()
+					for wallNow()-t0 < 2000000 {
+						if cond() {
+							c05LateConds++
+							e.graced = false
+							return
+						}
+						<-c05Pulse
+					}
+				}
+				if len(mtx) == 0 {
+					buf := make([]byte, 1<<20)
+					buf = buf[:runtime.Stack(buf, true)]
+					var hdrs []string
+					for _, b := range strings.Split(string(buf), "\n\n") {
+						if !strings.Contains(b, "synctest bubble") {
+							ls := strings.Split(b, "\n")
+							k := len(ls)
+							if k > 7 {
+								k = 7
+							}
+							hdrs = append(hdrs, "UNTAGGED "+strings.Join(ls[:k], " | "))
+						}
+						if strings.Contains(b, "synctest bubble") {
+							ls := strings.Split(b, "\n")
+							k := len(ls)
+							if k > 9 {
+								k = 9
+							}
+							hdrs = append(hdrs, strings.Join(ls[:k], " | "))
+						}
+					}
+					panic("c05: operation does not return although no goroutine is blocked on a lock; parked=" + fmt.Sprint(vpoll.Parked()) + " round=" + fmt.Sprint(round) + " sample=" + strings.Join(c05LastSample, " ;; ") + "\n" + strings.Join(hdrs, "\n"))
+				}
+				cls := "other"
+				joined := strings.Join(mtx, " | ")
+				switch {
+				case strings.Contains(joined, "dataSetRdb).DelReader"), strings.Contains(joined, "dataSetRdb).DelWriter"):
+					cls = "rdb-close"
+				case strings.Contains(joined, "AofRotateReader).close"):
+					cls = "aof-reader-close"
+				}
+				e.lastOp = cls // signature: one per lock cycle, not per operation that runs into it
+				e.fail("a cache operation never returns: every goroutine of the cache is blocked, at least one on a lock that can no longer be released (dead-lock); readers neither end nor fail",
+					"deadlock", map[string]interface{}{"blocked_on_lock": mtx})
+				e.wedged(*e.viol)
+			}
+			sweeps++
+			queue = vpoll.Tickets()
+			if e.wakeDesc {
+				for i, j := 0, len(queue)-1; i < j; i, j = i+1, j-1 {
+					queue[i], queue[j] = queue[j], queue[i]
 				}
 			}
-		}
-		if e.disk() && safe && vpoll.Parked() > 0 {
-			vpoll.Tick()
-		}
-		// pacing only (not an oracle): look at the goroutine states every few ms of waiting
-		now := wallNow()
-		if lastSample == 0 {
-			lastSample = now
-		}
-		if now-lastSample < 4000 {
-			continue
-		}
-		lastSample = now
-		all, mtx := bubbleBlocked()
-		if all && len(mtx) > 0 {
-			blockedRounds++
-		} else {
-			blockedRounds = 0
-		}
-		if blockedRounds >= 4 {
-			if cond() {
-				return
+			if len(queue) == 0 {
+				continue
 			}
-			cls := "other"
-			joined := strings.Join(mtx, " | ")
-			switch {
-			case strings.Contains(joined, "dataSetRdb).DelReader"), strings.Contains(joined, "dataSetRdb).DelWriter"):
-				cls = "rdb-close"
-			case strings.Contains(joined, "AofRotateReader).close"):
-				cls = "aof-reader-close"
-			}
-			e.lastOp = cls // signature: one per lock cycle, not per operation that runs into it
-			e.fail("a cache operation never returns: every goroutine of the cache is blocked, at least one on a lock that can no longer be released (dead-lock); readers neither end nor fail",
-				"deadlock", map[string]interface{}{"blocked_on_lock": mtx})
-			e.wedged(*e.viol)
 		}
+		vpoll.Wake(queue[0])
+		queue = queue[1:]
 	}
 }
 
@@ -352,6 +408,8 @@ func init() {
 }
 
 var c05StackBuf []byte
+var c05LastSample []string
+var c05LateConds int64
 
 var c05Never = make(chan struct{}) // created outside every bubble: parking on it is not "durably blocked"
 
@@ -374,6 +432,7 @@ func bubbleBlocked() (all bool, mutexBlocked []string) {
 		return false, nil
 	}
 	all = true
+	c05LastSample = c05LastSample[:0]
 	for _, b := range blocks[1:] {
 		nl := strings.Index(b, "\n")
 		if nl < 0 {
@@ -385,6 +444,7 @@ func bubbleBlocked() (all bool, mutexBlocked []string) {
 			continue
 		}
 		st := hdr[lb+1:]
+		c05LastSample = append(c05LastSample, hdr)
 		switch {
 		case strings.HasPrefix(st, "sync.Mutex.Lock"), strings.HasPrefix(st, "sync.RWMutex.RLock"), strings.HasPrefix(st, "sync.RWMutex.Lock"), strings.HasPrefix(st, "semacquire"):
 			var frames []string
@@ -650,6 +710,7 @@ func (e *c05Env) relax() {
 }
 
 func (e *c05Env) retireWriter() {
+	e.snapStalled = false
 	if e.w != nil {
 		e.w.stale = true
 		e.stales = append(e.stales, e.w)
@@ -686,6 +747,14 @@ func (e *c05Env) writerEnded() {
 	w.g.Close(nil)
 	e.w = nil
 	if w.kind == "rdb" {
+		w.mu.Lock()
+		werr := w.err
+		w.mu.Unlock()
+		if e.snapStalled && werr == nil && e.snap != nil {
+			// the stalled writer got its space and stored the rest
+			e.snap.complete, e.snap.written = true, e.snap.size
+		}
+		e.snapStalled = false
 		if e.snap != nil && !e.snap.complete {
 			// an incompletely received snapshot must not survive
 			for _, r := range e.allRd {
@@ -728,6 +797,7 @@ func (e *c05Env) opRdb(mode string) {
 	e.hiRight()
 	e.hist++
 	e.hi = 0
+	e.snapStalled = false
 	e.snap = &c05Snap{left: left, size: size}
 	e.aofStart, e.right = -1, -1
 	e.startWriter("rdb", g, h)
@@ -781,7 +851,7 @@ func (e *c05Env) opAof() {
 
 func (e *c05Env) feed(n int64) {
 	w := e.w
-	if w == nil || e.viol != nil {
+	if w == nil || e.viol != nil || e.snapStalled {
 		return
 	}
 	if w.kind == "aof" {
@@ -800,6 +870,21 @@ func (e *c05Env) feed(n int64) {
 	}
 	e.events++
 	e.settle()
+	if w.kind == "rdb" && e.snap.complete && !e.waitUntil(w.isDone) && e.memBlocked() {
+		// memory writer waiting for space (a reader pins a snapshot segment): not complete yet
+		e.snap.complete = false
+		if m, ok := e.ch.(*MemoryChannel); ok {
+			m.mux.RLock()
+			if m.rdb != nil && m.rdb.replayable {
+				if b := m.rdb.bufferedSize(); b < e.snap.written {
+					e.snap.written = b
+				}
+			}
+			m.mux.RUnlock()
+		}
+		e.snapStalled = true
+		return
+	}
 	if w.kind == "rdb" && e.snap.complete {
 		if !e.waitUntil(w.isDone) {
 			e.fail("snapshot writer did not finish after receiving all bytes", "writer-hang", nil)
@@ -824,6 +909,11 @@ func (e *c05Env) opEOF() {
 	}
 	w.g.Close(nil)
 	e.events++
+	if e.disk() {
+		// the ending writer may close readers that wait on its (empty) last segment; such a
+		// Close blocks on the mutex of a parked poller, so synctest.Wait cannot be used here
+		e.spinUntil(w.isDone)
+	}
 	if !e.waitUntil(w.isDone) {
 		if !e.memBlocked() {
 			e.fail("writer did not end after its source ended", "writer-hang", nil)
@@ -989,6 +1079,12 @@ func (e *c05Env) openTargets() []struct {
 func (e *c05Env) apply(op string) {
 	e.logf("op %s", op)
 	structural := true
+	e.wakeDesc = false
+	if strings.HasSuffix(op, "~") { // same operation, poll timers fire in reverse park order while it runs
+		op = strings.TrimSuffix(op, "~")
+		e.wakeDesc = true
+	}
+	defer func() { e.wakeDesc = false }()
 	switch {
 	case op == "rdbF" || op == "rdbP" || op == "rdbH":
 		e.lastOp = "rdb" + op[3:]
@@ -1019,8 +1115,10 @@ func (e *c05Env) apply(op string) {
 			n = 2*e.cfg.L + 3
 		}
 		e.feed(n)
-	case op[0] == 'o':
+	case op[0] == 'o' || op[0] == 'O': // "oX" = open, "OX" = open and start at once (what every caller does)
 		structural = false
+		start := op[0] == 'O'
+		op = "o" + op[1:]
 		slot := -1
 		for i := range e.readers {
 			if e.readers[i] == nil {
@@ -1033,6 +1131,9 @@ func (e *c05Env) apply(op string) {
 				r := e.openAt(tg.x, false, op)
 				if r != nil {
 					e.readers[slot] = r
+					if start {
+						e.startReader(r)
+					}
 				}
 			}
 		}
@@ -1106,6 +1207,7 @@ func (e *c05Env) apply(op string) {
 	}
 	_ = structural
 	e.settle()
+	e.writerEnded() // a writer that was waiting for space may have finished by now
 	e.checkReaders()
 	e.checkView()
 	e.expectCaughtUp("after " + op)
@@ -1120,15 +1222,22 @@ func (e *c05Env) enabled(tier string) ([]string, map[string]bool) {
 	}
 	if e.disk() {
 		reg := e.w != nil && e.w.kind == "rdb"
+		polling := 0
 		for _, r := range e.allRd {
 			if _, ended := r.snapshot(); !r.aof && !ended {
 				reg = true
 			}
+			if r.polling() {
+				polling++
+			}
 		}
-		if reg {
-			for _, op := range []string{"rdbF", "rdbP", "rdbH", "del"} {
+		if reg || polling >= 2 {
+			for _, op := range []string{"rdbF", "rdbP", "rdbH", "del", "rdbF~", "rdbP~", "rdbH~", "del~"} {
 				risky[op] = true
 			}
+		}
+		if polling >= 2 {
+			ops = append(ops, "rdbF~", "del~")
 		}
 	}
 	ops = append(ops, "rdbF", "rdbP")
@@ -1138,8 +1247,11 @@ func (e *c05Env) enabled(tier string) ([]string, map[string]bool) {
 	if e.w == nil || e.w.kind == "aof" {
 		ops = append(ops, "aof", "aofD")
 	}
+	if e.w != nil && !e.snapStalled {
+		ops = append(ops, "f1", "fa", "fb", "fc", "fd")
+	}
 	if e.w != nil {
-		ops = append(ops, "f1", "fa", "fb", "fc", "fd", "eof")
+		ops = append(ops, "eof")
 	}
 	free := false
 	for i := range e.readers {
@@ -1150,11 +1262,14 @@ func (e *c05Env) enabled(tier string) ([]string, map[string]bool) {
 	if free {
 		for _, tg := range e.openTargets() {
 			ops = append(ops, tg.name)
+			if tg.name == "oL" || tg.name == "oR" {
+				ops = append(ops, "O"+tg.name[1:])
+			}
 		}
 	}
 	for i, r := range e.readers {
 		if r != nil {
-			if !r.started && !e.otherPolling(r) {
+			if !r.started {
 				ops = append(ops, fmt.Sprintf("s%d", i))
 			}
 			ops = append(ops, fmt.Sprintf("c%d", i))
@@ -1382,6 +1497,29 @@ func (e *c05Env) teardown() {
 	}
 }
 
+// c05Bubble is bubble() that keeps the harness's own panic message when the bubble then
+// also complains about the goroutines that panic left behind.
+func c05Bubble(t *testing.T, f func()) (panicMsg string) {
+	inner := ""
+	defer func() {
+		if r := recover(); r != nil {
+			panicMsg = fmt.Sprintf("%v", r)
+		}
+		if inner != "" {
+			panicMsg = inner + "\n(then: " + panicMsg + ")"
+		}
+	}()
+	synctest.Test(t, func(t *testing.T) {
+		defer func() {
+			if r := recover(); r != nil {
+				inner = fmt.Sprintf("panic in harness: %v\n%s", r, debug.Stack())
+			}
+		}()
+		f()
+	})
+	return
+}
+
 var c05DirSeq int
 
 var c05Root string
@@ -1397,14 +1535,19 @@ func c05ScratchRoot() string {
 		base = os.TempDir()
 	}
 	if st, err := os.Stat("/dev/shm"); err == nil && st.IsDir() && os.Getenv("VERIF_NO_SHM") == "" {
-		cand := filepath.Join("/dev/shm", fmt.Sprintf("verif-c05-%d", os.Getpid()))
-		if os.MkdirAll(cand, 0o777) == nil {
+		// MkdirTemp, not the pid: shard processes of concurrent runs may live in different
+		// pid namespaces and share /dev/shm
+		if cand, err := os.MkdirTemp("/dev/shm", "verif-c05-"); err == nil {
 			c05Root = cand
 			return c05Root
 		}
 	}
-	c05Root = filepath.Join(base, fmt.Sprintf("c05-%d", os.Getpid()))
-	os.MkdirAll(c05Root, 0o777)
+	if cand, err := os.MkdirTemp(base, "c05-"); err == nil {
+		c05Root = cand
+	} else {
+		c05Root = filepath.Join(base, fmt.Sprintf("c05-%d", os.Getpid()))
+		os.MkdirAll(c05Root, 0o777)
+	}
 	return c05Root
 }
 
@@ -1412,7 +1555,7 @@ type c05Outcome struct {
 	res     mc.Result
 	key     string
 	enabled []string
-	risky   map[string]bool // enabled ops that reset the cache while a snapshot reader/writer is registered
+	risky   map[string]bool // enabled ops that reset the cache while a snapshot reader/writer is registered or two segment readers poll
 	wedged  bool
 }
 
@@ -1427,7 +1570,7 @@ func c05Exec(t *testing.T, scn c05Scenario, tier string) c05Outcome {
 	resCh := make(chan c05Outcome, 2)
 	go func() {
 		var out c05Outcome
-		msg := bubble(t, func() {
+		msg := c05Bubble(t, func() {
 			vpoll.Reset(scn.Cfg.Backend == "disk")
 			e := &c05Env{t: t, cfg: scn.Cfg, dir: dir, aofStart: -1, right: -1, lastOp: "init"}
 			e.wedged = func(v mc.Result) {
@@ -1462,8 +1605,8 @@ func c05Exec(t *testing.T, scn c05Scenario, tier string) c05Outcome {
 			out.res = mc.OK(mc.Hash(out.key), e.delivered > 0, e.events)
 		})
 		if msg != "" {
-			if len(msg) > 3000 {
-				msg = msg[:3000]
+			if len(msg) > 20000 {
+				msg = msg[:20000]
 			}
 			out = c05Outcome{res: mc.Result{Verdict: "machinery", Clause: "bubble: " + msg}}
 		}
@@ -1512,13 +1655,21 @@ func runC05(t *testing.T, rep *mc.Reporter) {
 	if tier == "thorough" {
 		depth = 5
 	}
+	if v := os.Getenv("VERIF_C05_DEPTH"); v != "" { // experiments only
+		fmt.Sscan(v, &depth)
+	}
 	const sharedLevels = 2 // levels every shard computes identically before partitioning
 	type node struct {
 		ops     []string
 		enabled []string
 		risky   map[string]bool
 	}
+	baseDepth := depth
 	for _, cfg := range c05Configs(tier) {
+		depth := baseDepth
+		if tier != "thorough" && cfg.Backend == "disk" && cfg.large() && os.Getenv("VERIF_C05_DEPTH") == "" {
+			depth = baseDepth + 1 // quick: one configuration is searched one level deeper
+		}
 		seen := map[string]bool{}
 		var states, transitions int64
 		run := func(ops []string, report bool) (c05Outcome, bool) {
@@ -1604,6 +1755,10 @@ func runC05(t *testing.T, rep *mc.Reporter) {
 		}
 		rep.Count("states", states)
 		rep.Count("transitions", transitions)
+		if c05LateConds > 0 {
+			rep.Count("late_completions", c05LateConds)
+			c05LateConds = 0
+		}
 	}
 	if budget.Expired() {
 		rep.Capped("deadline reached before the breadth-first search reached its depth bound")
